@@ -12,6 +12,8 @@ CLAIMS = {
  "C05": ("CFDP fixed header: pack = table 5-1 oracle for all flag/width/ID values (16 width cases x symbolic values), unpack decision list of errors and field extraction for arbitrary octets, round trip with suffix, refusals, caller config untouched.", "DESIGN.md 5 C05"),
  "C20": ("Unsigned byte field contracts (constructor refusal iff over all integers, view coherence, rebuild from octets for all five widths, setters, eq/hash, generator, conversion helpers) discharged for all values by case split over the five widths.", "DESIGN.md 5 C20"),
  "C16": ("History property by induction: add_tc / add_tm / remove_entry / remove_completed_entries verified against the state-machine spec sm_step on a tracker in an ARBITRARY state (open dict: any number of telecommands, arbitrary status records, step lists of any length) with a whole-view post-condition (own entry = sm_step, any other entry untouched, universally quantified other key); monotonicity lemmas over sm_step.", "DESIGN.md 5 C16"),
+ "C08": ("TLV/LV: pack = 727.0-B-5 5.4 layout oracles for LV, generic TLV and the six concrete TLVs (abstract strings: chars vs octets), unpack of arbitrary octets, round trips with suffix, strict-prefix refusal, refusal of values > 255 octets, type-safety matrix over unpack/from_tlv/TlvHolder for every other TLV type, status-code helper totality.", "DESIGN.md 5 C08"),
+ "C18": ("Reserved CFDP messages: nine builders pack = tlv(2, 'cfdp' + type + fields) oracle, decode/classification/get_* return exactly the original parameters incl. ID widths, other get_* return None, classifier total (never raises) over every value of 0..255 octets.", "DESIGN.md 5 C18"),
 }
 NOT_APPLICABLE = {}
 props = [json.loads(l)["id"] for l in open(os.path.join(V, "properties.jsonl"))]
